@@ -142,12 +142,15 @@ def run(ctx):
                     "skeleton_path_mismatches": len(all_path), "blobClose_model_mismatches": len(all_wipe)})
     ctx.samples.append({"theorem": "Bee2V.C15.allPathsClose_sound",
                         "statement": "allPathsClose c = true → ∀ tr s' r, Exec c St.init tr s' (.ret r) → ClosesAll tr"})
+    ctx.cov["violating_inputs"] = len({(op, cfg) for op, fn, what, cfg in all_problems})
     seen = set()
     for op, fn, what, cfg in all_problems:
         key = "blobClose:not-overwritten" if op.startswith("wipe") else "%s:%s" % (fn, op.split()[1] + "/" + "/".join(op.split()[2:]))
         if key in seen:
             continue
         seen.add(key)
+        if len(seen) > 12:
+            continue          # the rest is counted in the evidence (`violating_inputs`)
         ctx.violation(key, "# property C15: %s (%s build)\n# replay: ./check C15 --replay <this file>\nconfig %s\n%s\n" % (what, cfg, cfg, op), True,
                       "%s: %s [%s, %s build]" % (fn, what, op, cfg))
     if not all_problems:
